@@ -30,6 +30,8 @@ repairs 0cba813 and ba62f49):
                            for a stack of configuration files (main file = priority 0, each
                            `extend_config` hop + 1; the TOML → instance parsing itself is C18's
                            subject, `Pya.C18`) and the resulting enabled-ness of a code.
+* `runModules`           — a run over several files: `Options.for_module` per file (options.py:288),
+                           no state shared between modules.
 
 The visitor itself (6 000 lines deciding *which* `show_error` calls are made) is not modelled: its
 calls are the input `List Raw` ("raw stream").  Not modelled either: message/context rendering,
@@ -391,5 +393,22 @@ def stackInsts (settings : List (String × Bool)) (files : List CfgFile) : List 
 def enabledStack (settings : List (String × Bool)) (files : List CfgFile) (path : List String)
     (dflt : String → Bool) (code : String) : Bool :=
   isErrorCodeEnabled (stackInsts settings files) path dflt code
+
+/-! ## A run over several modules -/
+
+/-- One module of a run: its dotted module path, its lines, the visitor's calls on it. -/
+structure Module where
+  path : List String
+  lines : List Line
+  raw : List Raw
+  deriving Repr, Inhabited
+
+/-- One pyanalyze run over several files (`_run_on_files`: one `Checker`, hence one `Options`
+object; `NameCheckVisitor.__init__` takes `checker.options.for_module(module_path)` for each file,
+options.py:288, a fresh `Options(self.options, module_path)` that shares only the immutable
+instance table): every module is checked with the enabled-ness function of *its* path and nothing
+is carried from one module to the next. `en` is e.g. `enabledStack settings files · dflt`. -/
+def runModules (en : List String → String → Bool) (mods : List Module) : List (Option St) :=
+  mods.map fun m => check (en m.path) m.lines m.raw
 
 end Pya.C11
